@@ -31,21 +31,25 @@ def optional_decode(ctx, L):
     f = ctx.py.mod('prophy.descriptor').func('decode_optional')
     L.check(P.has(f, 'value, _ = type_._optional_type._decode(data, pos, endianness)'), 'F1.optional-mirror',
             'decode_optional|flag', f.site(), 'the flag is decoded first with the optional flag type', '')
-    L.check(P.has(f, 'opt_alignment = type_._OPTIONAL_ALIGNMENT'), 'F1.optional-mirror', 'decode_optional|gap-source', f.site(),
+    L.check(P.has(f, 'opt_alignment = type_._OPTIONAL_ALIGNMENT') or any('_OPTIONAL_ALIGNMENT' in unparse(r.value) for r in ast.walk(f.node)
+                                                                          if isinstance(r, ast.Return) and r.value is not None),
+            'F1.optional-mirror', 'decode_optional|gap-source', f.site(),
             'the value offset inside the slot must be _OPTIONAL_ALIGNMENT (what encode pads the flag to), not the decoded '
             'size of the flag', '')
     rets = [r for r in ast.walk(f.node) if isinstance(r, ast.Return)]
     present = [r for r in rets if any(unparse(t) == 'value' and p for t, p, h in path_conditions(f.module, f, r))]
     absent = [r for r in rets if any(unparse(t) == 'value' and not p for t, p, h in path_conditions(f.module, f, r))]
-    ok = len(absent) == 1 and ws(unparse(absent[0].value)) in ('opt_alignment + type_._SIZE', 'type_._OPTIONAL_SIZE')
+    ok = len(absent) == 1 and (P.sem_is(f, absent[0].value, 'type_._OPTIONAL_ALIGNMENT + type_._SIZE') or
+                               P.sem_is(f, absent[0].value, 'type_._OPTIONAL_SIZE'))
     L.check(ok, 'F1.optional-mirror', 'decode_optional|absent-consumes-slot', f.site(absent[0] if absent else None),
             'an absent optional must consume the full static slot (_OPTIONAL_ALIGNMENT + _SIZE), the number of zero bytes '
             'encode_optional emits', unparse(absent[0].value) if absent else '')
-    ok = len(present) == 1 and ws(unparse(present[0].value)) == \
-        'opt_alignment + type_._decode(parent, name, sub_type, data, pos, endianness, len_hints)' and \
-        P.has(f, 'pos += opt_alignment') and P.has(f, 'sub_type = type_.__bases__[0]')
+    ok = len(present) == 1 and P.sem_is(
+        f, present[0].value, 'type_._OPTIONAL_ALIGNMENT + type_._decode(parent, name, type_.__bases__[0], data, '
+        'pos + type_._OPTIONAL_ALIGNMENT, endianness, len_hints)')
     L.check(ok, 'F1.optional-mirror', 'decode_optional|present', f.site(present[0] if present else None),
-            'a present optional decodes the base type at pos + _OPTIONAL_ALIGNMENT and consumes that gap plus the value', '')
+            'a present optional decodes the base type at pos + _OPTIONAL_ALIGNMENT and consumes that gap plus the value',
+            P.sem_text(f, present[0].value) if present else '')
     absent_set = [c for c in f.walk() if isinstance(c, ast.Call) and unparse(c) == 'setattr(parent, name, None)']
     L.check(len(absent_set) == 1 and any(unparse(t) == 'value' and not p for t, p, h in
                                          path_conditions(f.module, f, absent_set[0])), 'F1.optional-mirror',
@@ -72,7 +76,8 @@ def terminal_clause(ctx, L):
     comp = ctx.py.mod('prophy.composite')
     f = comp.func('struct._decode_impl')
     DECODE_IMPL = ['self', 'data', 'pos', 'endianness', 'terminal']
-    tests = [n for n in f.node.body if isinstance(n, ast.If) and P.sem_is(f, n.test, 'terminal and pos < len(data)', DECODE_IMPL)
+    tests = [n for n in f.node.body if isinstance(n, ast.If) and P.sem_is(f, n.test, 'terminal and cursor < len(data)', DECODE_IMPL)
+             and set(re.sub(r'^__v\d+_', '', x.id) for x in ast.walk(n.test) if isinstance(x, ast.Name)) == {'terminal', 'pos', 'len', 'data'}
              and isinstance(n.body[-1], ast.Raise)]
     L.check(len(tests) == 1, 'C02.terminal-check', 'struct._decode_impl|unread-bytes', f.site(),
             'a terminal decode must reject unread trailing bytes (`terminal and pos < len(data)` -> ProphyError)', '')
@@ -205,7 +210,9 @@ def array_decoders(ctx, L):
     s = ws(unparse(g.node))
     L.check('del self[:]' in s, 'C02.array-decode', 'bound_composite_array._decode_impl|clear', g.site(),
             'previous elements are dropped before decoding', '')
-    L.check(inn('if not self._SIZE and (not self._BOUND): while pos + cursor < len(data): cursor += self.add()._decode_impl(data, pos + cursor, endianness, terminal=False)', s),
+    whiles = [w for w in g.walk() if isinstance(w, ast.While)]
+    L.check(len(whiles) == 1 and P.knows(g, whiles[0], 'not self._SIZE and not self._BOUND', True)
+            and inn('while pos + cursor < len(data): cursor += self.add()._decode_impl(data, pos + cursor, endianness, terminal=False)', ws(unparse(whiles[0]))),
             'C02.array-decode', 'bound_composite_array._decode_impl|greedy', g.site(),
             'a greedy composite array decodes elements until the input is exhausted', s)
     L.check(inn('for _ in xrange(len_hint): cursor += self.add()._decode_impl(data, pos + cursor, endianness, terminal=False)', s),
